@@ -473,13 +473,13 @@ theorem storeStep_extra (B : HBlock) (env : Nat → Content) (cap : Nat) (hwf : 
     the new one is stored. -/
 theorem addShred_live (B : HBlock) (env : Nat → Content) (cap : Nat) (hwf : B.WF env cap)
     (b : BlockData) (s : Shred) (hl : Live B cap b) (hs : B.Honest s) :
-    Live B cap (addShred env b s).1 ∧ (∀ i j, Stored b i j → Stored (addShred env b s).1 i j) ∧
-      Stored (addShred env b s).1 s.slice s.idx := by
+    Live B cap (addShredCore env b s).1 ∧ (∀ i j, Stored b i j → Stored (addShredCore env b s).1 i j) ∧
+      Stored (addShredCore env b s).1 s.slice s.idx := by
   obtain ⟨hg, he⟩ := hl
   have hgood := addShred_good B env cap hwf b s hg hs
   refine ⟨⟨hgood.1, ?_⟩, ?_⟩
   all_goals
-    unfold addShred
+    unfold addShredCore
     obtain ⟨b1, hc, hg1⟩ := cacheStep_good B cap b s hg hs
     have he1 := cacheStep_extra B b b1 s hc he
     have hf1 := cacheStep_fields b b1 s hc
